@@ -8,5 +8,6 @@ typedef struct { SipHashState m_state; uint64_t m_tmp; uint8_t m_count; } CSipHa
 typedef struct { SipHashState m_state; } PresaltedSipHasher;
 #define ROTL64(x, n) (((x) << (n)) | ((x) >> (64 - (n))))
 #define VERIF_ASSERT(c) assert(c)
+typedef struct { uint32_t input[12]; } ChaCha20Aligned;
 #define C49_FUNCS
 #include "slices.h"
